@@ -9,7 +9,7 @@ from concurrent.futures import ThreadPoolExecutor
 
 from lib import gN, gbool, bspec_in, bspec_obs, lcg_bytes, hexs
 
-HEADER = "From CJ Require Import Common.Base C15.Model C15.ModelName C15.ModelObf C15.ModelAny C15.Run.\n"
+HEADER = "From CJ Require Import Common.Base C15.Model C15.ModelName C15.ModelObf C15.ModelAny C15.ModelDns C15.Run.\n"
 DNSREG = "pkg/registrars/dns-registrar/"
 PKGS = {
     "msgformat": (".", DNSREG + "msgformat", "c15/msgformat_driver_test.go", "TestVerifC15Msgformat"),
@@ -275,6 +275,149 @@ def gen_obf(ctx):
     return out
 
 
+# ------------------------------------------------------------------ DNS messages
+POOL = [b"a", b"b", b"example", b"com", b"org", b"WWW", b"www", b"x" * 63, b"t", b"a.b", b"a\\x2eb", b"-", b"0", bytes([0xff, 0]), b"Com"]
+
+
+def pname(rng, maxlabels=5):
+    """names from a small label pool so that suffixes repeat across the message"""
+    k = rng.choice([0, 1, 1, 2, 2, 3, 3, 4, maxlabels])
+    return [rng.choice(POOL) for _ in range(k)]
+
+
+def mk_rr(rng, name, big=None):
+    r = {"name": hexl(name), "type": rng.choice([1, 16, 41, 65535, rng.randrange(65536)]), "class": rng.choice([1, 4096, rng.randrange(65536)]),
+         "ttl": rng.choice([0, 60, 0xffffffff, rng.getrandbits(32)]), "data": "", "dseed": 0, "dgen": 0}
+    if big:
+        r["dseed"], r["dgen"] = rng.randrange(1, 1 << 30), big
+    else:
+        r["data"] = rb(rng, rng.choice([0, 0, 1, 4, 16, 64])).hex()
+    return r
+
+
+def rr_data(r):
+    return lcg_bytes(r["dseed"], r["dgen"]) if r.get("dgen") else bytes.fromhex(r["data"])
+
+
+def mk_q(rng, name):
+    return {"name": hexl(name), "type": rng.choice([1, 16, rng.randrange(65536)]), "class": rng.choice([1, rng.randrange(65536)])}
+
+
+def empty_msg(rng):
+    return {"id": rng.getrandbits(16), "flags": rng.choice([0x0100, 0x8000, 0x8400, rng.getrandbits(16)]), "q": [], "an": [], "ns": [], "ar": []}
+
+
+def chain_msg(rng, depth, where="q"):
+    """names a1, a2.a1, a3.a2.a1, ...: each encoded name ends in a pointer to the previous one"""
+    m = empty_msg(rng)
+    name = []
+    for k in range(1, depth + 2):
+        name = [b"a%d" % k] + name
+        sec = where if where != "mix" else rng.choice(["q", "an", "ns", "ar"])
+        m[sec].append(mk_q(rng, name) if sec == "q" else mk_rr(rng, name))
+    if where == "mix":   # sections are written in order q, an, ns, ar: keep the nesting order
+        names = [x["name"] for sec in ("q", "an", "ns", "ar") for x in m[sec]]
+        names.sort(key=len)
+        it = iter(names)
+        for sec in ("q", "an", "ns", "ar"):
+            for x in m[sec]:
+                x["name"] = next(it)
+    return m
+
+
+def msg_names(m):
+    return [unhexl(x["name"]) for sec in ("q", "an", "ns", "ar") for x in m[sec]]
+
+
+def gen_msg(ctx):
+    rng, quick = ctx.rng, ctx.tier == "quick"
+    out = []
+
+    def add(m):
+        out.append(Case("msg_rt", "dns", {"op": "msg_rt", "msg": m}, m))
+    for depth in range(0, 15):
+        add(chain_msg(rng, depth, "q"))
+        if not quick or depth in (9, 10, 11):
+            add(chain_msg(rng, depth, "an"))
+            add(chain_msg(rng, depth, "mix"))
+    for _ in range(60 if quick else 1200):
+        m = empty_msg(rng)
+        for sec in ("q", "an", "ns", "ar"):
+            for _ in range(rng.choice([0, 0, 1, 1, 2, 3, 6])):
+                n = pname(rng)
+                m[sec].append(mk_q(rng, n) if sec == "q" else mk_rr(rng, n))
+        add(m)
+    add(empty_msg(rng))
+    # the requester's query and the responder's answer shapes
+    m = empty_msg(rng)
+    qn = [b"mfrggzdfmztwq2lknnwg23tpobyxe43uov3ho6dzpi" * 1, b"t", b"example", b"com"]
+    m["q"].append({"name": hexl(qn), "type": 16, "class": 1})
+    m["an"].append({"name": hexl(qn), "type": 16, "class": 1, "ttl": 60, "data": (b"\x05hello").hex(), "dseed": 0, "dgen": 0})
+    m["ar"].append({"name": [], "type": 41, "class": 4096, "ttl": 0, "data": "", "dseed": 0, "dgen": 0})
+    add(m)
+    # offsets beyond 0x3fff: a large record in front, repeated names after it
+    for big in ([16383 - 40, 16400] if quick else [16383 - 40, 16383 - 30, 16383 - 20, 16384, 16400, 40000]):
+        for _ in range(1 if quick else 6):
+            m = empty_msg(rng)
+            early = pname(rng, 4) or [b"early"]
+            m["q"].append(mk_q(rng, early))
+            m["an"].append(mk_rr(rng, pname(rng), big=big))
+            for _ in range(6):
+                n = rng.choice([early, early[1:], [b"late"] + early, [b"late"], [b"late2", b"late"], pname(rng)])
+                m[rng.choice(["an", "ns", "ar"])].append(mk_rr(rng, n))
+            add(m)
+    # RDATA length limit
+    for n in ([65535, 65536] if quick else [65534, 65535, 65536, 65537, 70000]):
+        m = empty_msg(rng)
+        m["an"].append(mk_rr(rng, [b"big"], big=n))
+        m["ns"].append(mk_rr(rng, [b"after", b"big"]))
+        add(m)
+    # names outside NewName's domain: the builder panics on a bad label, writes an over-long name
+    for bad in ([[b""], [b"y" * 64], [b"ok", b"", b"z"], [b"x" * 63] * 4, [b"x" * 63] * 3 + [b"y" * 62]]):
+        m = empty_msg(rng)
+        m["q"].append(mk_q(rng, [b"fine"]))
+        m[rng.choice(["q", "an"])].append(mk_q(rng, bad) if False else mk_rr(rng, bad))
+        if "type" in m["q"][-1] and "ttl" in m["q"][-1]:
+            m["an"].append(m["q"].pop())
+        add(m)
+    return out
+
+
+def gen_msg_dec(ctx, wires):
+    """decoder on arbitrary bytes: valid messages with flipped / removed / added bytes, pointer bytes planted, random strings"""
+    rng, quick = ctx.rng, ctx.tier == "quick"
+    out = []
+
+    def add(d):
+        out.append(Case("msg_dec", "dns", {"op": "msg_dec", "data": bytes(d).hex()}, bytes(d)))
+    for w in wires[: (40 if quick else 600)]:
+        add(w)
+        for _ in range(3 if quick else 6):
+            b = bytearray(w)
+            r = rng.random()
+            if r < 0.25:
+                b = b[:rng.randrange(len(b) + 1)]
+            elif r < 0.4:
+                b += rb(rng, rng.choice([1, 2, 5]))
+            elif r < 0.7 and b:
+                i = rng.randrange(len(b))
+                b[i] = rng.choice([0, 1, 0xC0, 0xC0, 0x3F, 0x40, 0xFF, b[i] ^ (1 << rng.randrange(8))])
+            elif len(b) > 13:
+                i = rng.randrange(12, len(b) - 1)      # plant a pointer (backward, forward or to itself)
+                tgt = rng.choice([i, i + 2, rng.randrange(0, i + 1), 12, rng.randrange(0, 0x4000)])
+                b[i], b[i + 1] = 0xC0 | (tgt >> 8) & 0x3F, tgt & 0xFF
+            else:
+                b[4:6] = bytes([0, rng.randrange(4)])   # question count
+            add(b)
+    for _ in range(20 if quick else 400):
+        n = rng.choice([0, 1, 5, 11, 12, 13, 17, 40])
+        b = bytearray(rb(rng, n))
+        if n >= 12 and rng.random() < 0.8:
+            b[4:12] = bytes([0, rng.randrange(3), 0, rng.randrange(3), 0, rng.randrange(2), 0, rng.randrange(2)])
+        add(b)
+    return out
+
+
 KINDS = {"generic": (0, "GenericTransportParams", 1), "prefix": (1, "PrefixTransportParams", 3),
          "dtls": (2, "DTLSTransportParams", 2), "c2s": (3, "ClientToStation", 2)}
 
@@ -474,7 +617,92 @@ def post_any(ctx, c):
                                                              enc(fields), gbool(r["ok2"]), enc(fout), r.get("url") or "")
 
 
-TERMS = {"anypb": post_any, "obf": post_obf, "reveal": post_reveal, "fmt": post_fmt, "name_rt": post_name_rt, "read_name": post_read_name, "trim": post_trim,
+def msg_key(m):
+    return repr(m)
+
+
+def msg_equal(m, back):
+    if back is None or m["id"] != back["id"] or m["flags"] != back["flags"]:
+        return False
+    for sec in ("q", "an", "ns", "ar"):
+        a, b = m[sec], back[sec] or []
+        if len(a) != len(b):
+            return False
+        for x, y in zip(a, b):
+            if unhexl(x["name"]) != unhexl(y["name"]) or x["type"] != y["type"] or x["class"] != y["class"]:
+                return False
+            if sec != "q" and (x["ttl"] != y["ttl"] or rr_data(x) != bytes.fromhex(y["data"])):
+                return False
+    return True
+
+
+def msg_brief(m):
+    b = {k: m[k] for k in ("id", "flags")}
+    for sec in ("q", "an", "ns", "ar"):
+        b[sec] = [{k: (v if k != "data" or len(v) < 200 else v[:40] + "...") for k, v in x.items()} for x in m[sec]]
+    return b
+
+
+def g_in_rr(x):
+    d = "(Gen %d%%N %d%%N)" % (x["dseed"], x["dgen"]) if x.get("dgen") else "(Lit %s)" % hexs(bytes.fromhex(x["data"]))
+    return "(%s, %s, %s, %s, %s)" % (gname(unhexl(x["name"])), gN(x["type"]), gN(x["class"]), gN(x["ttl"]), d)
+
+
+def g_obs_rr(x):
+    return "(%s, %s, %s, %s, %s)" % (gname(unhexl(x["name"])), gN(x["type"]), gN(x["class"]), gN(x["ttl"]), bspec_obs(bytes.fromhex(x["data"])))
+
+
+def g_q(x):
+    return "(%s, %s, %s)" % (gname(unhexl(x["name"])), gN(x["type"]), gN(x["class"]))
+
+
+def g_msg(m, rrf):
+    if m is None:
+        return "empty_cmsg"
+    return "(%s, %s, %s, %s, %s, %s)" % (gN(m["id"]), gN(m["flags"]), "[" + "; ".join(g_q(x) for x in m["q"] or []) + "]",
+                                         *("[" + "; ".join(rrf(x) for x in m[sec] or []) + "]" for sec in ("an", "ns", "ar")))
+
+
+def post_msg_dec(ctx, c):
+    d, r = c.aux, c.res
+    if r.get("panic"):
+        ctx.fail("msg_dec/panic", "MessageFromWireFormat panicked: %s" % r["panic"], {"fam": "msg_dec", "data": d.hex()})
+        return None
+    ctx.count(("msg_dec", d), kind="msg_dec/" + (r["err"] or "ok"))
+    if r["err"] not in RD_ERR:
+        ctx.broken("correspondence", "unexpected error class from MessageFromWireFormat: %r" % r["err"], {"fam": "msg_dec", "data": d.hex()})
+        return None
+    return "CMsgDec %s %s %s" % (hexs(d), gN(RD_ERR[r["err"]]), g_msg(r.get("msg") if r["ok"] else None, g_obs_rr))
+
+
+def post_msg_rt(ctx, c):
+    m, r = c.aux, c.res
+    names = msg_names(m)
+    valid = all(representable(n) for n in names)
+    fits = all(len(m[s]) <= 65535 for s in ("q", "an", "ns", "ar")) and all(len(rr_data(x)) <= 65535 for s in ("an", "ns", "ar") for x in m[s])
+    cls = "panic" if r.get("panic") else (r["err"] or ("ok" if r["ok2"] else "undecodable:" + r["err2"]))
+    ctx.count(("msg_rt", msg_key(m)), kind="msg_rt/" + cls)
+    case = {"fam": "msg_rt", "msg": msg_brief(m)}
+    if valid:
+        if r.get("panic"):
+            ctx.fail("msg/panic", "WireFormat/MessageFromWireFormat panicked on a message of valid names: %s" % r["panic"], case)
+        elif r["ok"] and not (r["ok2"] and msg_equal(m, r.get("msg"))):
+            chain = r["err2"] == "ptrs"
+            ctx.fail("msg/roundtrip/compression-chain" if chain else "msg/roundtrip",
+                     "MessageFromWireFormat(WireFormat(m)) != m for a message the encoder accepted (%d names, decode error %r)"
+                     % (len(names), r["err2"]), case)
+        elif r["ok"] != fits:
+            ctx.fail("msg/accepts", "WireFormat %s a message that %s its 16-bit fields" % (
+                "accepted" if r["ok"] else "rejected (%s)" % r["err"], "fits" if fits else "does not fit"), case)
+    code1 = 99 if r.get("panic") else {"": 0, "overflow": 1}.get(r["err"], 98)
+    if r.get("err2", "") not in RD_ERR:
+        ctx.broken("correspondence", "unexpected error class from MessageFromWireFormat: %r" % r["err2"], case)
+        return None
+    return "CMsgRt %s %s %s %s %s" % (g_msg(m, g_in_rr), gN(code1), bspec_obs(bytes.fromhex(r.get("out") or "")), gN(RD_ERR[r.get("err2", "")]),
+                                      g_msg(r.get("msg") if r.get("ok2") else None, g_obs_rr))
+
+
+TERMS = {"msg_rt": post_msg_rt, "msg_dec": post_msg_dec, "anypb": post_any, "obf": post_obf, "reveal": post_reveal, "fmt": post_fmt, "name_rt": post_name_rt, "read_name": post_read_name, "trim": post_trim,
          "chunks": post_chunks, "b32": post_b32}
 
 
@@ -503,6 +731,11 @@ def replay_cases(ctx):
             elif fam == "anypb":
                 js = {"op": "anypb", "kind": c["kind"], "dstkind": c["dstkind"], "url": c["url"], "fields": c["fields"], "nilsrc": c["nilsrc"]}
                 out.append(Case("anypb", "transports", js, (c["kind"], c["dstkind"], c["url"], tuple(c["fields"]), c["nilsrc"])))
+            elif fam == "msg_rt" and all(not str(x.get("data", "")).endswith("...") for sec in ("an", "ns", "ar") for x in c["msg"][sec]):
+                out.append(Case("msg_rt", "dns", {"op": "msg_rt", "msg": c["msg"]}, c["msg"]))
+            elif fam == "msg_dec":
+                b = bytes.fromhex(c["data"])
+                out.append(Case("msg_dec", "dns", {"op": "msg_dec", "data": b.hex()}, b))
             elif fam == "trim":
                 n, s = unhexl(c["labels"]), unhexl(c["suffix"])
                 out.append(Case("trim", "dns", {"op": "trim", "labels": hexl(n), "suffix": hexl(s)}, (n, s)))
@@ -529,7 +762,7 @@ def run(ctx):
     rc, out = ctx.coq_make(["C15/Examples.vo"])
     if rc != 0:
         ctx.broken("examples", "non-vacuity examples (C15/Examples.v) no longer check: " + out[-500:])
-    cases = replay_cases(ctx) + gen_fmt(ctx) + gen_names(ctx) + gen_req(ctx) + gen_obf(ctx) + gen_any(ctx)
+    cases = replay_cases(ctx) + gen_fmt(ctx) + gen_names(ctx) + gen_req(ctx) + gen_obf(ctx) + gen_any(ctx) + gen_msg(ctx)
     if not run_go(ctx, cases):
         return
     # second stage: what the requester sent is parsed by the dns package and answered by the responder
@@ -539,11 +772,12 @@ def run(ctx):
         if c.res["ok"] and c.res["out"]:
             stage2.append(Case("send_dec", "dns", {"op": "msg_dec", "data": c.res["out"]}, c))
             stage2.append(Case("send_query", "responder", {"op": "query", "data": c.res["out"], "domain": hexl(c.aux[1])}, c))
+    stage2 += gen_msg_dec(ctx, [bytes.fromhex(c.res["out"]) for c in cases if c.fam == "msg_rt" and c.res.get("ok") and len(c.res["out"]) < 1200])
     if stage2 and not run_go(ctx, stage2):
         return
     b32 = {c.aux: bytes.fromhex(c.res["out"]) for c in cases if c.fam == "b32"}
     terms, tcases = [], []
-    for c in cases:
+    for c in cases + stage2:
         if c.fam in TERMS:
             t = TERMS[c.fam](ctx, c)
             if t:
@@ -593,6 +827,8 @@ def run(ctx):
                        "trim/ok", "trim/no", "chunks/63", "b32", "send/ok", "send/err",
                        "obf/xor/ok", "obf/xor/err", "obf/nil/ok", "obf/ctr/ok", "obf/ctr/err", "obf/gcm/ok", "obf/gcm/err",
                        "reveal/xor/ok", "reveal/xor/err", "reveal/ctr/ok", "reveal/ctr/err", "reveal/gcm/err", "reveal/nil/ok",
+                       "msg_rt/ok", "msg_rt/overflow", "msg_rt/panic", "msg_rt/undecodable:namelong",
+                       "msg_dec/ok", "msg_dec/eof", "msg_dec/trailing", "msg_dec/reserved", "msg_dec/ptrs",
                        "anypb/keep/ok", "anypb/empty/ok", "anypb/tapdance/ok", "anypb/other/err", "anypb/cross-keep/err", "anypb/nil/ok"])
     mm = ctx.coq_mismatches("all", HEADER, terms, "chk", shard=max(60, (len(terms) + 11) // 12), need_vo=["C15/Run.vo"])
     if mm:
